@@ -201,6 +201,12 @@ func (p *parent) runBatch(j job) {
 	from, end := j.From, j.From+j.N
 	deaths := 0
 	for from < end {
+		// Enough witnesses: a tree that already produced ten violations is not explored further
+		// (inputs that blow up memory or time make every further batch slower for no new verdict).
+		if r.Violations() >= 10 {
+			r.Count("batches_cut_short_after_10_violations", 1)
+			return
+		}
 		args := []string{"-c16child", "-target", j.Target, "-seed", fmt.Sprint(r.Seed), "-batch", fmt.Sprint(j.Batch),
 			"-from", fmt.Sprint(from), "-n", fmt.Sprint(end - from), "-scratch", p.scratch}
 		args = append(args, fixedFlags(j)...)
